@@ -12,11 +12,18 @@ pub mod sched;
 pub mod server;
 pub mod validity;
 pub mod worlds;
+pub mod worlds2;
 
 pub fn all() -> Vec<&'static Check> {
     vec![
         &worlds::C01,
         &worlds::C02,
+        &worlds2::C07,
+        &worlds2::C08,
+        &worlds2::C09,
+        &worlds2::C10,
+        &worlds2::C39,
+        &worlds2::C41,
         &delta::C11,
         &delta::C12,
         &history::C13,
